@@ -211,6 +211,8 @@ func attrNames(attrs []schema.Attr) []string {
 
 // structure renders the parts of a schema the differs are known not to look at (C02 findings) or
 // that are cheap to compare independently: attribute sets per element and the element lists.
+var reNumber = regexp.MustCompile(`^[+-]?(0[xX][0-9a-fA-F]+|(\d+\.?\d*|\.\d+)([eE][+-]?\d+)?)$`)
+
 func structure(s *schema.Schema) []string {
 	var out []string
 	for _, t := range s.Tables {
@@ -222,6 +224,11 @@ func structure(s *schema.Schema) []string {
 				def = "lit:" + strings.Trim(x.V, "'")
 			case *schema.RawExpr:
 				def = "expr:" + strings.Trim(x.X, "()")
+				// a number that HCL cannot spell as written (1e3, 0x10) travels as sql("..."): the same
+				// default, written back unparenthesised or parenthesised - not a structural difference.
+				if reNumber.MatchString(x.X) {
+					def = "lit:" + x.X
+				}
 			}
 			out = append(out, fmt.Sprintf("  column %s.%s null=%v default=%s attrs=%v", t.Name, c.Name, c.Type.Null, def, attrNames(c.Attrs)))
 		}
